@@ -80,7 +80,7 @@ def _mask_bits(draw, shape, periodic):
 @st.composite
 def cart_specs(draw, tier):
     big = tier == "thorough"
-    g = draw(gen.cart_grids(max_shape=(40, 16, 8) if not big else (64, 24, 10), min_shape=1))
+    g = draw(gen.cart_grids(max_shape=(40, 16, 8) if not big else (64, 24, 10), min_shape=1, far=True))
     bits = draw(_mask_bits(tuple(g["shape"]), g["periodic"]))
     via = draw(st.sampled_from(["mask", "mask", "threshold"]))
     spec = {"family": "cart", "grid": g, "bits": bits, "via": via}
@@ -361,7 +361,10 @@ class C02(Property):
         comps = O.components(mask, geom.periodic)
         nd = geom.dim
         scale = float(geom.L.max())
-        tol = 1e-9 * scale
+        cmax = float(np.abs(np.r_[geom.origin, geom.origin + geom.L]).max())
+        tol = 1e-9 * scale + 64 * np.finfo(float).eps * cmax  # the second term: rounding of a coordinate of magnitude cmax
+        if cmax > 1e5 * scale:
+            ctx.cls("far-from-origin")
         orc = []
         touches = False
         for c in comps:
@@ -396,18 +399,20 @@ class C02(Property):
         oC = np.array([o[1] for o in orc])
         oW = np.array([o[2] for o in orc], bool)
         oR = np.array([o[3] for o in orc])
+        # (py-pde derives the cell size from the stored bounds of the box: far from the origin it carries their rounding)
+        vtol = 1e-9 + 8 * nd * np.finfo(float).eps * cmax / float(geom.dx.min())
         adj = []
         for p, v in zip(pos, vol):
             if not (np.shape(p) == (nd,) and np.all(np.isfinite(p)) and np.isfinite(v)):
                 adj.append([])
                 continue
             near = oW | (np.abs(geom.min_image(p - oC)).max(axis=1) <= tol)
-            adj.append([int(j) for j in np.flatnonzero((np.abs(v - oV) <= 1e-9 * oV) & near)])
+            adj.append([int(j) for j in np.flatnonzero((np.abs(v - oV) <= vtol * oV) & near)])
         ml = _match(adj, ncomp)
         used = {j for j in ml if j >= 0}
         if any(j < 0 for j in ml):
             i = ml.index(-1)
-            volm = [j for j, (V, c, w, _r) in enumerate(orc) if abs(vol[i] - V) <= 1e-9 * V]
+            volm = [j for j, (V, c, w, _r) in enumerate(orc) if abs(vol[i] - V) <= vtol * V]
             if not volm:
                 ctx.fail("cart:volume", f"droplet V={vol[i]:.6g} at {pos[i]} matches no component volume {[round(o[0], 6) for o in orc]}")
             elif adj[i]:
